@@ -32,6 +32,12 @@ CHECKS = {
  "C09": (E1, "bounded-exhaustive enumeration of interning / revalidation / revision-bump histories for revisions in {1,2,3,unbounded} with an only-if reclamation-rule monitor",
          "All histories of depth 7-9 over {write the interned data of a LOW function (3 values), synthetic write, request the LOW interning function, request a dependent (revalidation), request a HIGH interning function}: a slot is reused for different data only if its old value was only ever interned at LOW durability, the type allows collection, at least `revisions` revisions used the type, and the old value was neither interned nor revalidated in any of the last `revisions` such revisions; every value whose slot was not taken over keeps its id.",
          "Interning functions are uniformly LOW or HIGH (envelope rule). Bounded.", "5/C09"),
+ "C10": (E1, "bounded-exhaustive history enumeration over creators that conditionally specify, call-before-specify, call-after-specify, specify twice and specify foreign structs; value reference + body-execution monitor + fresh-database differential",
+         "All histories (depth 5-7) over three programs and every order of requesting the creator, the specified function (on each struct, from the top level and from another function) and writes that switch the specifications on and off: values follow the statement's rules (specified value wins unless computed earlier in the same execution; later revisions follow the creator's latest execution; computed value when no longer specified), the body of the specifiable function never runs for a key the creator currently specifies, specifying twice / a foreign struct panics with salsa's message and leaves the database usable.",
+         "Bounded. One genuine defect found by this check was repaired (fix: commit 79d3608, see known_findings.json).", "5/C10"),
+ "C11": (E1, "bounded-exhaustive history enumeration over accumulating programs; accumulated lists compared with a from-scratch pre-order reference after every mix of reuse, verification, backdating and recomputation",
+         "Three programs (conditional and value-dependent pushes at several depths, diamonds, an lru leaf, a never-change leaf, a backdating leaf) x all histories of depth 5-6 over writes, synthetic writes, plain requests and accumulated::<A>() of every node: the returned list equals the reference (each called function once, a function's own values first, callees in first-call order).",
+         "For the program that pushes after calls only the multiset is compared (the statement's wording and salsa's documented order differ there). No accumulation inside cycles (documented as unsupported).", "5/C11"),
  "C12": (E1, "bounded-exhaustive enumeration of cyclic programs x histories on the real database against a Kleene least-fixpoint reference and a fresh-database differential",
          "Programs: every 3-node program over 27 monotone node templates on the bit-set lattice (join, meet, input masks, input-controlled branches, calls to any node incl. itself) with cycle_initial = bottom and default / joining cycle_fn (thorough: all 2 x 19683; quick: named shapes + a stride sample), all histories of depth 4 over input writes, every node as entry point, and a code swap that forms/breaks cycles; after every operation the value must equal the least fixpoint computed by Kleene iteration, and a fresh database with the same inputs must agree on every node.",
          "Bounded (3 nodes + optional plain caller, depth 4, 3-bit lattice). Known findings (genuine defects of the pinned tree, see known_findings.json / DESIGN.md) are reported as KNOWN-FINDING lines.", "5/C12"),
@@ -41,6 +47,12 @@ CHECKS = {
  "C15": (E1, "bounded-exhaustive history enumeration over fixpoint systems that provably have no fixpoint; panic/iteration-bound/recovery oracle",
          "Six fixpoint-free systems (self-successor, negation pair, nested with a diverging inner cycle, input-conditional divergence, ...; absence of any fixpoint is decided by brute force over the value domain) x all histories of depth 4-5 over writes, requests of every node and a code swap that makes the system monotone: a request into the diverging cycle must panic (iteration limit or propagated panic), never iterate more than 200 times, unrelated nodes answer correctly in the same revision, and after the swap every node equals the least fixpoint.",
          "A hang (no panic at all) would stall the worker and surface as a machinery timeout rather than a VIOLATION line.", "5/C15"),
+ "C08": (E1, "bounded-exhaustive history enumeration (sequential part) + exhaustive preemption-bounded schedule exploration (concurrent part) with a canonicity monitor over all interning calls",
+         "Sequential: all histories of depth 6-7 over programs that intern the same and different values from two queries and from the top level, for revisions = 1, 3 and unbounded: within a revision equal data <=> equal handle, read-back exact, a value keeps its id unless its slot was reclaimed. Concurrent (E2, thorough tier and quick tier): 2-3 threads interning overlapping values directly and inside tracked functions, every interleaving within the preemption bound: equal data <=> equal handle across threads, read-back exact.",
+         "Bounded; SC interleavings; interned data hashes into one shard on purpose.", "5/C08"),
+ "C14": (E1, "bounded-exhaustive history enumeration over cycles through non-recovering functions with an operational re-entry oracle (sequential part); exhaustive schedule exploration for the multi-thread part",
+         "Programs with pure and mixed (fixpoint + non-recovering) cycles, self cycles and input-conditional cycles; all entry orders and histories of depth 5-6 that form and break the cycle: whenever a function without cycle handling is called while live on the caller's stack the request must end in salsa's cycle panic (never a value, never a hang); any value that is returned equals the least fixpoint; unrelated functions answer correctly throughout and the former members do once the cycle is broken.",
+         "A sequential hang would stall the worker (machinery timeout, not a VIOLATION line). The converse (panic only on re-entry) is not demanded by the statement and is only counted.", "5/C14"),
  "C16": (E2, "exhaustive preemption-bounded schedule exploration (iterative context bounding) of the real code on a controlled scheduler; every schedule compared with the sequential reference; deadlock/livelock detection",
          "Every interleaving with <= k preemptions (k=2 for 2 threads, 1 for 3 threads in quick; +1 in thorough) of reader threads on clones of one database over 8 DAG programs with shared sub-queries x several request assignments; in every schedule each request must return the reference value and all threads must terminate (a state with no enabled thread is reported as deadlock, a step bound as livelock).",
          "SC interleavings only; scheduling points = salsa's own sync shim operations; third-party lock-free code executes atomically between points; bounded preemptions and scenarios.", "5/C16"),
